@@ -44,9 +44,13 @@ pub struct PointReplay {
     pub universe: Vec<Vec<u8>>,
     pub plan: PostPlan,
     pub counter: u64,
+    /// base of the per-level size limits (0 = built-in), as in the recorded workload
+    #[serde(default)]
+    pub level_base: u64,
 }
 
 pub fn eval_point(p: &PointReplay) -> Result<PointInfo, String> {
+    raindb::verif::set_level_base_bytes(p.level_base);
     let img = Arc::new(MemFs::from_journal(&p.journal, p.k, p.torn, false));
     let accept: Vec<Model> = p.accept.iter().map(|m| m.iter().cloned().collect()).collect();
     check_recovery(img, p.cfg, &accept, &p.universe, &p.plan, p.counter)
@@ -112,6 +116,7 @@ fn enumerate_c02(
             universe: universe.to_vec(),
             plan,
             counter: rec.counter,
+            level_base: rec.level_base,
         };
         tally.points += 1;
         let result = judge(&p, dircheck, tally);
@@ -261,6 +266,7 @@ fn enumerate_c16(ch: u64, universe: &[Vec<u8>], rec: &Recorded, tier: Tier, tall
                     universe: universe.to_vec(),
                     plan: PostPlan { writes, reuse1: r1, reuse2: r2, dircheck: false },
                     counter: rec.counter,
+                    level_base: rec.level_base,
                 };
                 tally.points += 1;
                 match eval_point(&p) {
